@@ -80,4 +80,9 @@ BUILT = {
   level='exploration',
   text='About 45 expression/statement forms in discard and value contexts over 16 operand types (long double and by-value structs included), evaluated up to 100000 times between two probes: rsp must be unchanged (alloca: bounded), the x87 stack unchanged and empty, a long double computation afterwards must give the reference value.',
   note='invariants are observed through gcc-assembled probes; D45 (more than 8 pending long double temporaries) recorded, generator nests at most 3'),
+ 'C11': dict(
+  technique='exhaustive enumeration (integer constant spellings at every typing threshold; all 1,114,112 code points through unicode.c in a native harness against an independently typed Annex D table) + property-based model-based/differential testing of generated string/character literals and Unicode identifiers + metamorphic BOM/CR-LF/line-splice transformations',
+  level='exploration',
+  text='2280 integer constant spellings (4 bases x 23 suffixes x threshold magnitudes) and every Unicode code point are covered exhaustively; string and character literals of all five prefixes with raw UTF-8, every escape form, UCNs, escaped backslashes, concatenation and prefix mixes are generated with a Python encoder as model and compared with gcc and clang; every generated program must print the same after inserting a BOM, CR/LF line ends and backslash-newlines at arbitrary byte positions.',
+  note='finite sub-spaces (integer spellings for the chosen magnitudes, unicode.c over all code points) are exhaustive; literal contents are sampled'),
 }
